@@ -1431,7 +1431,7 @@ pub fn run(args: &[String]) -> i32 {
         return dump(&scripts);
     }
     let mut o = Out::create(arg(args, "--out").expect("--out"));
-    let exe = std::env::current_exe().expect("current_exe");
+    let exe = crate::util::self_exe();
     let errp = format!("{}.stderr", arg(args, "--out").unwrap());
     let mut from = 0usize;
     let (mut aborts, mut dropped, mut toolerr) = (0usize, 0usize, 0usize);
